@@ -1,5 +1,5 @@
-\* thorough 1: every combination of four pool features on three pools x all 12 weight vectors
-CONSTANTS WeightVecs = {1, 2, 3, 4, 5, 6, 7, 8, 9, 10, 11, 12}  FeatDiag = FALSE  NPods = 2  PodArchs = {1, 2, 3, 6}
+\* thorough 1: every combination of four pool features on three pools x four weight vectors (distinct / tie on top / tie below / unset on top)
+CONSTANTS WeightVecs = {1, 6, 7, 12}  FeatDiag = FALSE  NPods = 2  PodArchs = {1, 2, 3, 6}
 CONSTANTS Feats = {"plain", "taint", "limit", "min2"}
 CONSTANTS Catalogs = {2}  DaemonSets = {2}  MaxTypesSet = {2}  Policies = {"Strict"}  Weak = ""
 SPECIFICATION Spec
